@@ -23,7 +23,15 @@ def documents(secret_path):
     d["use_only_self"] = f'<svg {NS} viewBox="0 0 9 9">{rect}<use id="a" xlink:href="#a"/></svg>'
     d["use_only_mutual"] = f'<svg {NS} viewBox="0 0 9 9"><use id="a" xlink:href="#b"/>{rect}<use id="b" xlink:href="#a"/></svg>'
     d["use_only_cycle3_in_group"] = f'<svg {NS} viewBox="0 0 9 9"><g><use id="a" xlink:href="#b"/><use id="b" xlink:href="#c" x="1"/></g><defs><use id="c" xlink:href="#a"/></defs></svg>'
-    d["use_dangling"] = f'<svg {NS} viewBox="0 0 9 9"><use xlink:href="#nope"/></svg>'
+    # the same cycles with references the cycle check and the expansion loop could normalise differently (padding, case of the id)
+    for pad_name, pad in (("trailing_blank", lambda r: r + " "), ("leading_blank", lambda r: " " + r), ("both_tab_newline", lambda r: "\t" + r + "&#10;")):
+        d[f"use_self_{pad_name}"] = f'<svg {NS} viewBox="0 0 9 9"><g id="a">{rect}<use xlink:href="{pad("#a")}"/></g></svg>'
+        d[f"use_mutual_{pad_name}"] = f'<svg {NS} viewBox="0 0 9 9"><g id="a"><use xlink:href="{pad("#b")}"/></g><g id="b"><use xlink:href="{pad("#a")}"/>{rect}</g></svg>'
+        d[f"use_mutual_one_{pad_name}"] = f'<svg {NS} viewBox="0 0 9 9"><g id="a"><use xlink:href="#b"/></g><g id="b"><use xlink:href="{pad("#a")}"/>{rect}</g></svg>'
+        d[f"use_only_self_{pad_name}"] = f'<svg {NS} viewBox="0 0 9 9">{rect}<use id="a" xlink:href="{pad("#a")}"/></svg>'
+        d[f"grad_mutual_{pad_name}"] = f'<svg {NS} viewBox="0 0 9 9"><defs><linearGradient id="g" xlink:href="{pad("#h")}"><stop offset="0" stop-color="red"/></linearGradient><linearGradient id="h" xlink:href="{pad("#g")}"/></defs><rect width="5" height="5" fill="url(#g)"/></svg>'
+        d[f"clip_self_{pad_name}"] = f'<svg {NS} viewBox="0 0 9 9"><clipPath id="c" clip-path="url({pad("#c")})">{rect}</clipPath><rect width="5" height="5" clip-path="url(#c)"/></svg>'
+    d["use_dangling"] =f'<svg {NS} viewBox="0 0 9 9"><use xlink:href="#nope"/></svg>'
     d["use_deep_acyclic"] = f'<svg {NS} viewBox="0 0 9 9"><defs>' + f'<g id="l0">{rect}</g>' + "".join(f'<g id="l{i}"><use xlink:href="#l{i-1}"/><use xlink:href="#l{i-1}" x="1"/></g>' for i in range(1, 7)) + '</defs><use xlink:href="#l6"/></svg>'
     d["clip_self"] = f'<svg {NS} viewBox="0 0 9 9"><clipPath id="c" clip-path="url(#c)">{rect}</clipPath><rect width="5" height="5" clip-path="url(#c)"/></svg>'
     d["clip_mutual"] = f'<svg {NS} viewBox="0 0 9 9"><clipPath id="c" clip-path="url(#d)">{rect}</clipPath><clipPath id="d" clip-path="url(#c)">{rect}</clipPath><rect width="5" height="5" clip-path="url(#c)"/></svg>'
